@@ -47,21 +47,21 @@ def observe(sc, root, binf, d, info, conv, w, do_recon=True, lf_numeric=False, r
     lf_rows = set()
     lf_data = {}
     want = wanted_shanks(sc, info)
-    got = sorted(int(key[5:]) for key in conv.shank_info)
+    named = outputs(sc, binf, info, conv, fin)
+    got = sorted(named)
     if want is not None and not set(want) <= set(got):
         # a shank that had to be written has no file at all: its rows are missing
         fin["ap_rows_ok"] = False
         lf_rows.add(-3)
         fin["detail"]["shanks"] = [want, got]
-    for key, si in conv.shank_info.items():
-        sh = int(key[5:])
+    for sh, si in named.items():
         chns = np.arange(nap + 1) if sc.get("lf_whole") else np.r_[np.flatnonzero(shank_of == sh), nap]
         if "ap_file" in si:
             observe_ap(fin, si, sh, chns, ns, d)
         lff = Path(si["lf_file"])
         try:
             b = n2.read_int16(lff)
-        except Exception as e:      # the file the run names as its output cannot be read at all
+        except n2.LIB_EXC as e:      # the file the run names as its output cannot be read at all
             fin["detail"]["lf_read_exc"] = f"{lff.name}: {type(e).__name__}: {e}"[:160]
             b = np.zeros(0, dtype=np.int16)
         if b.size % len(chns) or not b.size:
@@ -73,14 +73,15 @@ def observe(sc, root, binf, d, info, conv, w, do_recon=True, lf_numeric=False, r
             fin["lf_sync_ok"] = False
         try:
             sr = spikeglx.Reader(lff, sort=False)
-            ok = (sr.shape == b.shape and sr.fs == 2500 and sr.type == "lf" and sr.nsync == 1)
+            ok = bool(sr.shape == b.shape and sr.fs == 2500 and sr.type == "lf" and sr.nsync == 1)
+            what = f"{sr.shape} {b.shape} {sr.fs} {sr.type}"
             sr.close()
             if not ok:
                 fin["lf_meta_ok"] = False
-                fin["detail"]["lf_meta"] = [list(sr.shape), list(b.shape), sr.fs, sr.type]
-        except Exception as e:
+                fin["detail"]["lf_meta"] = what
+        except n2.LIB_EXC as e:
             fin["lf_meta_ok"] = False
-            fin["detail"]["lf_meta_exc"] = f"{type(e).__name__}: {e}"
+            fin["detail"]["lf_meta_exc"] = f"{type(e).__name__}: {e}"[:160]
         lf_data[sh] = (b, chns)
     fin["lf_rows"] = lf_rows.pop() if len(lf_rows) == 1 else -1
     if lf_numeric and lf_data:
@@ -98,6 +99,51 @@ def observe(sc, root, binf, d, info, conv, w, do_recon=True, lf_numeric=False, r
     if do_recon:
         reconstruct(sc, binf, d, fin, rc_early, info.get("meta_text"))
     return fin
+
+
+def named_outputs(conv):
+    """what the converter object says it wrote (`shank_info`) as {shank: {"lf_file": Path, "ap_file": Path (where one was written)}};
+    (None, reason) when the attribute is not there or not of the form verified here"""
+    try:
+        out = {}
+        for key, v in conv.shank_info.items():
+            if not (isinstance(key, str) and key.startswith("shank")):
+                raise ValueError(f"key {key!r}")
+            e = {"lf_file": Path(v["lf_file"])}
+            if "ap_file" in v:
+                e["ap_file"] = Path(v["ap_file"])
+            out[int(key[5:])] = e
+        return out, ""
+    except n2.LIB_EXC as e:
+        return None, f"{type(e).__name__}: {e}"[:120]
+
+
+def outputs(sc, binf, info, conv, fin):
+    """the files a finished run left, per shank. They are taken from the converter object; when it does not name them (attribute
+    renamed, other keys, entries without paths - reported as drift) they are looked up where the naming convention puts them:
+    <label><a..d><extra>/<name>.ap|lf.bin|cbin for a split, <name>.lf.bin|cbin next to the recording for the LF of a whole file.
+    The clauses are about the files: shanks without files have no rows (APFile:rows / LFFile:rows)."""
+    named, why = named_outputs(conv)
+    if named is not None:
+        return named
+    n2.UNBOUND.add("NP2Converter.shank_info: " + why)
+    fin["detail"]["outputs_by_convention"] = why
+    binf = Path(binf)
+    bname = binf.with_suffix(".bin").name
+    lfname = bname.replace("ap", "lf")
+
+    def pick(f):     # the .bin or the .cbin, whichever is there (the one the options ask for first)
+        c = [f.with_suffix(".cbin"), f] if sc.get("compress") else [f, f.with_suffix(".cbin")]
+        return next((x for x in c if x.exists()), c[0])
+    want = wanted_shanks(sc, info)
+    if want is None:
+        return {0: {"lf_file": pick(binf.parent / lfname)}}
+    out = {}
+    for sh in want:
+        folder = binf.parent.parent / (binf.parent.name + chr(97 + sh) + (sc.get("extra") or ""))
+        if folder.is_dir():
+            out[sh] = {"ap_file": pick(folder / bname), "lf_file": pick(folder / lfname)}
+    return out
 
 
 def wanted_shanks(sc, info):
@@ -130,17 +176,20 @@ def reconstruct(sc, binf, d, fin, rc_early=None, ref_meta=None):
     bname = binf.with_suffix(".bin").name
     mname = binf.with_suffix(".meta").name
     # NP2Reconstructor writes into <raw>/<pname>/ : move the original out of the way first
-    if rc_early is None:
+    if rc_early is None and pdir.is_dir():
         shutil.move(str(pdir), str(orig))
     else:               # the reconstructor object exists already (it made sure the folder exists): only the files leave
-        orig.mkdir()
-        for f in list(pdir.iterdir()):
+        orig.mkdir()    # (or the conversion did away with the folder of the original: nothing to move)
+        for f in list(pdir.iterdir()) if pdir.is_dir() else []:
             shutil.move(str(f), str(orig / f.name))
     # what the destination folder holds before the reconstruction: nothing; the metadata of another (shorter) recording
     # under the output's name, with or without a longer binary; the original's own metadata (kept when the size matches)
     dest = ["fresh", "stale_meta", "stale_both", "orig_meta"][int(sc.get("seed", 0) + sc["ns"]) % 4]
     fin["detail"]["recon_dest"] = dest
-    mtxt = (orig / mname).read_text()
+    try:
+        mtxt = (orig / mname).read_text()
+    except (OSError, ValueError):       # the conversion removed / mangled the metadata of the original: the text as synthesised
+        mtxt = ref_meta or ""
     nbytes = int(d.size) * 2
     if dest != "fresh":
         pdir.mkdir(parents=True, exist_ok=True)
@@ -161,38 +210,51 @@ def reconstruct(sc, binf, d, fin, rc_early=None, ref_meta=None):
     rcomp = bool(sc.get("recon_compress"))
     mode = sc.get("recon_obj", "fresh")
     fin["detail"]["recon_obj"] = [mode, rcomp]
+    out = None
     try:
-        rc = rc_early if rc_early is not None else neuropixel.NP2Reconstructor(str(raw) if sc.get("path_type") == "str" else raw, label,
-                                                                              compress=rcomp)
-        if mode == "failed_then" and folders:
-            # a first attempt while one shank folder is not there (declines or raises), then the same object once it is back
-            hidden = raw / "away"
-            shutil.move(str(folders[-1]), str(hidden))
-            try:
-                st0 = rc.process()
-            except Exception as e:  # noqa
-                st0 = type(e).__name__
-            fin["detail"]["recon_first"] = str(st0)
-            shutil.move(str(hidden), str(folders[-1]))
-        st = rc.process()
-        if mode == "twice":
+        with n2.time_limit(n2.RUN_LIMIT_S, "NP2Reconstructor run", 4 * nbytes):
+            rc = rc_early if rc_early is not None else neuropixel.NP2Reconstructor(str(raw) if sc.get("path_type") == "str" else raw, label,
+                                                                                  compress=rcomp)
+            if mode == "failed_then" and folders:
+                # a first attempt while one shank folder is not there (declines or raises), then the same object once it is back
+                hidden = raw / "away"
+                shutil.move(str(folders[-1]), str(hidden))
+                try:
+                    st0 = rc.process()
+                except n2.LIB_EXC as e:  # noqa
+                    st0 = type(e).__name__
+                fin["detail"]["recon_first"] = str(st0)[:60]
+                shutil.move(str(hidden), str(folders[-1]))
             st = rc.process()
+            if mode == "twice":
+                st = rc.process()
         out = pdir / (Path(bname).with_suffix(".cbin").name if rcomp else bname)
-        if st != 1 or not out.exists() or n2.read_int16(out).tobytes() != np.ascontiguousarray(d).tobytes():
+        if n2.norm_status(st)[0] != 1 or not out.exists() or n2.read_int16(out).tobytes() != np.ascontiguousarray(d).tobytes():
             fin["recon_bytes_ok"] = False
-            fin["detail"]["recon_out"] = [str(st), out.name, out.exists()]
+            fin["detail"]["recon_out"] = [str(st)[:60], out.name, out.exists()]
+    except n2.LIB_EXC as e:
+        fin["recon_bytes_ok"] = False
+        fin["detail"]["recon_exc"] = f"{type(e).__name__}: {e}"[:200]
+        if out is None:     # the reconstruction itself did not come to its end: there is no metadata to judge
+            return
+    try:
         # the reference is the metadata text as synthesised, not what the folder of the original holds after the conversion
         (orig / "_reference.meta").write_text(ref_meta if ref_meta is not None else mtxt)
         m0 = spikeglx.read_meta_data(orig / "_reference.meta")
+    except n2.LIB_EXC as e:     # the reader of the code under test does not read the synthesised text: no reference to compare with
+        fin["recon_meta_ok"] = False
+        fin["detail"]["recon_meta_exc"] = f"reference: {type(e).__name__}: {e}"[:200]
+        return
+    try:
         m1 = spikeglx.read_meta_data(out.with_suffix(".meta"))
         # only a part of the recording was converted (init_params nsamples): the size field describes that part
         diff = [x for x in meta_diff(m0, m1) if not (sc.get("nsamples") and x[0] == "fileSizeBytes" and m1.get("fileSizeBytes") == nbytes)]
         if diff:
             fin["recon_meta_ok"] = False
             fin["detail"]["recon_meta"] = diff[:6]
-    except Exception as e:
-        fin["recon_bytes_ok"] = False
-        fin["detail"]["recon_exc"] = f"{type(e).__name__}: {e}"
+    except n2.LIB_EXC as e:     # the metadata file of the reconstruction is not there / not readable / not a table of fields
+        fin["recon_meta_ok"] = False
+        fin["detail"]["recon_meta_exc"] = f"{type(e).__name__}: {e}"[:200]
 
 
 def observe_ap(fin, si, sh, chns, ns, d):
@@ -200,7 +262,7 @@ def observe_ap(fin, si, sh, chns, ns, d):
     apf = Path(si["ap_file"])
     try:
         a = n2.read_int16(apf)
-    except Exception as e:      # the file the run names as its output cannot be read at all
+    except n2.LIB_EXC as e:      # the file the run names as its output cannot be read at all
         fin["detail"][f"ap_read_exc_{sh}"] = f"{apf.name}: {type(e).__name__}: {e}"[:160]
         a = np.zeros(0, dtype=np.int16)
     if a.size % len(chns) or a.size // len(chns) != ns:
@@ -217,14 +279,14 @@ def observe_ap(fin, si, sh, chns, ns, d):
                                           "got": int(a[tuple(bad[0])]), "want": int(d[:, chns][tuple(bad[0])])}
     try:
         sr = spikeglx.Reader(apf, sort=False)
-        ok = (sr.shape == (ns, len(chns)) and sr.meta.get("NP2.4_shank") == sh and sr.type == "ap"
-              and np.array_equal(sr.geometry["shank"], np.zeros(len(chns) - 1) + sh))
+        ok = bool(sr.shape == (ns, len(chns)) and sr.meta.get("NP2.4_shank") == sh and sr.type == "ap"
+                  and np.array_equal(sr.geometry["shank"], np.zeros(len(chns) - 1) + sh))
         sr.close()
         if not ok:
             fin["ap_meta_ok"] = False
-    except Exception as e:
+    except n2.LIB_EXC as e:
         fin["ap_meta_ok"] = False
-        fin["detail"]["ap_meta_exc"] = f"{type(e).__name__}: {e}"
+        fin["detail"]["ap_meta_exc"] = f"{type(e).__name__}: {e}"[:160]
 
 
 def meta_diff(m0, m1):
@@ -295,7 +357,7 @@ def run_variant(sc, binf, d, info):
     if sc.get("recon_obj") == "early":     # constructed before there is anything to reconstruct, used afterwards
         try:
             rc_early = neuropixel.NP2Reconstructor(raw, label, compress=bool(sc.get("recon_compress")))
-        except Exception as e:  # noqa
+        except n2.LIB_EXC as e:  # noqa
             return None, [], None, f"NP2Reconstructor(): {type(e).__name__}: {e}", None
     wt = sc.get("w_type", "int")
     init = {}
@@ -320,12 +382,17 @@ def run_variant(sc, binf, d, info):
     pchk = bool(sc.get("post_check")) and (not sc.get("nshank_pick") or wanted_shanks(sc, info) == wanted_shanks(dict(sc, nshank_pick=None), info))
     status, events, conv, exc, first = n2.convert_opts(str(apf) if sc.get("path_type") == "str" else apf, init, compress=bool(sc.get("compress")),
                                                        post_check=pchk, overwrite=bool(sc.get("pre")), decline_first=sc.get("pre") == "decline_force", np21=np21,
-                                                       twice=sc.get("pre") == "twice_force")
+                                                       twice=sc.get("pre") == "twice_force", **bounds(sc, d))
     if sc.get("pre") == "decline_force" and first != 0 and not exc:
         exc = f"process() returned {first} although every output folder existed"
     if sc.get("pre") == "twice_force" and first != 1 and not exc:
         exc = f"the first process() of the object returned {first} on a fresh folder"
     return status, events, conv, exc, rc_early
+
+
+def bounds(sc, d):
+    """what stops a run that does not stop by itself: calls of the per-window hook, size of any file it writes"""
+    return {"max_events": n2.event_cap(sc["ns"], min(sc["w"], sc.get("reuse_first_w") or sc["w"])), "max_bytes": 8 * int(d.nbytes)}
 
 
 def one_run(ctx, sc, idx, keep_lf=False):
@@ -342,13 +409,13 @@ def one_run(ctx, sc, idx, keep_lf=False):
     if any(sc.get(k) for k in VARIANT_KEYS):
         status, events, conv, exc, rc_early = run_variant(sc, binf, d, info)
     elif sc.get("reuse_first_w"):
-        status, events, conv, exc = n2.convert_reuse(binf, sc["reuse_first_w"], sc["w"])
+        status, events, conv, exc = n2.convert_reuse(binf, sc["reuse_first_w"], sc["w"], **bounds(sc, d))
     else:
-        status, events, conv, exc = n2.convert(binf, sc["w"])
+        status, events, conv, exc = n2.convert(binf, sc["w"], **bounds(sc, d))
     if status == "skipped":     # the scenario needs a private entry point that this code does not have (reported as drift)
         n2.rm(root)
         return None
-    tr = {"ns": int(sc.get("nsamples") or sc["ns"]), "w": sc["w"], "status": status if status is not None else -9, "exc": exc[:120],
+    tr = {"ns": int(sc.get("nsamples") or sc["ns"]), "w": sc["w"], "status": status if status is not None else -9, "exc": str(exc)[:120],
           "wins": n2.window_events(events, lambda e: e["first"]), "final": None}
     if status == 1 and not exc:
         whole = not sc.get("nshank_pick") or wanted_shanks(sc, info) == wanted_shanks(dict(sc, nshank_pick=None), info)
@@ -536,15 +603,28 @@ def variant_sig(sc):
 
 def replay_shankcols(ctx, cases):
     """spec -> code: every shank map of the model: the run-length string the code writes and the list it parses back"""
-    import spikeglx
-    import neuropixel
-    rc = neuropixel.NP2Reconstructor.__new__(neuropixel.NP2Reconstructor)
-    missing = [nm for nm, ok in (("spikeglx._get_savedChans_subset", hasattr(spikeglx, "_get_savedChans_subset")),
-                                 ("NP2Reconstructor._get_chans", hasattr(rc, "_get_chans"))) if not ok]
+    try:
+        import spikeglx
+        import neuropixel
+        rc = neuropixel.NP2Reconstructor.__new__(neuropixel.NP2Reconstructor)
+        missing = [nm for nm, ok in (("spikeglx._get_savedChans_subset", hasattr(spikeglx, "_get_savedChans_subset")),
+                                     ("NP2Reconstructor._get_chans", hasattr(rc, "_get_chans"))) if not ok]
+    except n2.LIB_EXC as e:     # the modules do not import / the class is not there: every conversion below reports it (Abnormal)
+        missing = [f"neuropixel.NP2Reconstructor ({type(e).__name__}: {e})"[:160]]
+    if not missing:
+        import inspect
+        for nm, fn, arg in (("spikeglx._get_savedChans_subset", spikeglx._get_savedChans_subset, np.arange(3)),
+                            ("NP2Reconstructor._get_chans", rc._get_chans, {})):
+            try:
+                inspect.signature(fn).bind(arg)
+            except TypeError as e:      # another signature: not callable the way the replay calls it
+                missing.append(f"{nm}(one argument): {e}")
+            except ValueError:          # not introspectable: called as verified
+                pass
     if missing:
         # private helpers: when they are renamed or inlined, the round trip of the channel list is still exercised end to end by the
         # reconstruction of every converted recording (clauses Reconstruct:bytes / Reconstruct:meta)
-        ctx.spec_drift(f"{', '.join(missing)} not found: spec/lib/ShankCols.tla is not replayed function by function")
+        ctx.spec_drift(f"{', '.join(missing)} not found (or not callable as verified): spec/lib/ShankCols.tla is not replayed function by function")
         return
     n = 0
     for c in cases:
@@ -554,11 +634,11 @@ def replay_shankcols(ctx, cases):
             try:
                 got = spikeglx._get_savedChans_subset(chns)
                 back = np.atleast_1d(rc._get_chans({"snsSaveChanSubset_orig": got})).tolist()
-            except Exception as e:
+            except n2.LIB_EXC as e:
                 got, back = f"{type(e).__name__}: {e}", None
             if back != sh["chns"]:
-                ctx.violation("split:SubsetRoundTrip", f"channel list {sh['chns']} -> '{got}' -> {back}", {"chns": sh["chns"]})
-            elif got != sh["subset"]:
+                ctx.violation("split:SubsetRoundTrip", f"channel list {sh['chns']} -> '{str(got)[:80]}' -> {str(back)[:80]}", {"chns": sh["chns"]})
+            elif sh.get("subset") is not None and got != sh["subset"]:
                 ctx.spec_drift(f"_get_savedChans_subset({sh['chns']}) = '{got}', spec Format gives '{sh['subset']}' (parses back correctly)")
     ctx.count(n, key=("shankcols", n))
     ctx.cov["shankcol_cases"] = n
@@ -567,7 +647,7 @@ def replay_shankcols(ctx, cases):
 def strip(t):
     t = {k: v for k, v in t.items() if not k.startswith("_")}
     t["final"] = {k: v for k, v in t["final"].items() if k not in ("detail", "lf_interior_dev")}
-    return t
+    return n2.tlc_safe(t)
 
 
 def validate(ctx, traces, label):
@@ -587,7 +667,7 @@ def report(ctx, scs, traces, verdicts, clauses, pid):
             head = mine[0].split(":")[0]
             ctx.violation("split:" + (mine[0] if head != "Abnormal" else "Abnormal"),
                           f"NP2Converter({desc}): clause(s) {'|'.join(mine)} false (window {v['pos']}) "
-                          f"{json.dumps(t['final'].get('detail', {}))[:300]}", {"scenario": sc})
+                          f"{json.dumps(t['final'].get('detail', {}), default=str)[:300]}", {"scenario": sc})
         elif v["impl"].startswith("unbound") and not v["prop"]:
             pass    # reported once per run, below
         elif v["impl"] and not v["prop"]:
@@ -595,10 +675,20 @@ def report(ctx, scs, traces, verdicts, clauses, pid):
 
 
 def report_unbound(ctx):
+    seen = set()
     for name in sorted(n2.UNBOUND):
         if name.endswith("_process_NP21"):
             ctx.spec_drift(f"entry point {name} does not exist in this code: the scenarios that pass offset / assert_shanks to the NP2.1 "
                            "path (process() does not forward them) are skipped")
+            continue
+        if ": " in name:        # the point is there but not in the form the binding reads (np2common.Recorder, c03.outputs)
+            point, why = name.split(": ", 1)
+            if point not in seen:       # one line per point (the first reason; there is one entry per distinct reason)
+                n = sum(1 for x in n2.UNBOUND if x.startswith(point + ": "))
+                ctx.spec_drift(f"{point} is not of the form verified ({why}{f'; {n - 1} more such reasons' if n > 1 else ''}): " + (
+                    "the files are looked up by the naming convention" if point.endswith("shank_info") else
+                    "the window loop of such a run is not bound, the run is judged on the files it leaves (black box)"))
+            seen.add(point)
             continue
         ctx.spec_drift(f"instrumentation point {name} does not exist in this code: the window loop of spec/sys/NP2Split.tla is not bound, "
                        "the runs are judged on the files they leave (black box)")
@@ -609,6 +699,8 @@ def selftest(ctx, traces, bad, clauses):
         return   # black-box mode: there are no window events to corrupt (already reported as drift)
     good = [i for i, t in enumerate(traces) if i not in bad and t["status"] == 1 and len(t["wins"]) >= 3][:6]
     if len(good) < 3:
+        if any(x.startswith("NP2Converter._ind2save: ") for x in n2.UNBOUND) and not any(t["wins"] for t in traces):
+            return   # the hook is there but none of its calls could be read: black-box mode as above (already reported as drift)
         raise tlc.TLCError("selftest: not enough accepted multi-window traces")
     mut = []
     for j, i in enumerate(good):
@@ -634,6 +726,9 @@ def selftest(ctx, traces, bad, clauses):
 
 def replay(ctx, sc, clauses=C03_CLAUSES, pid="C03"):
     quiet(ctx)
+    if "chns" in sc:        # a channel list of spec/lib/ShankCols.tla (replay_shankcols)
+        replay_shankcols(ctx, [{"shanks": [{"chns": sc["chns"], "subset": None}]}])
+        return
     s = sc["scenario"]
     t = one_run(ctx, s, 0)
     if t is None:
